@@ -110,6 +110,21 @@ func alloc(n chain.NetSpec) func(k *chain.Keys) chain.GenesisAlloc {
 				g.SC = append(g.SC, types.SiacoinOutput{Value: types.Siacoins(uint32(80 + p)), Address: types.PolicyAfter(m.Add(time.Duration(d) * time.Second)).Address()})
 			}
 		}
+		// the same locks on siafund outputs (the siafund input loops are separate code); the total stays 10000
+		var sf uint64
+		addSF := func(a types.Address) {
+			g.SF = append(g.SF, types.SiafundOutput{Value: 1, Address: a})
+			sf++
+		}
+		for T := uint64(1); T <= maxH; T++ {
+			addSF(ucLock(k, T).UnlockHash())
+			addSF(types.PolicyAbove(T).Address())
+			m := refMedian(ts, T)
+			for d := -1; d <= 1; d++ {
+				addSF(types.PolicyAfter(m.Add(time.Duration(d) * time.Second)).Address())
+			}
+		}
+		g.SF[0].Value -= sf
 		return g
 	}
 }
@@ -214,6 +229,43 @@ func verdict(b bool) string {
 func (r *runner) v1ok(h uint64) bool { return h < r.spec.Require }
 func (r *runner) v2ok(h uint64) bool { return h >= r.spec.Allow }
 
+func findSF(w *chain.World, addr types.Address) (types.SiafundElement, bool) {
+	var es []types.SiafundElement
+	for _, e := range w.Store.SF {
+		if e.SiafundOutput.Address == addr {
+			es = append(es, e)
+		}
+	}
+	sort.Slice(es, func(i, j int) bool { return es[i].StateElement.LeafIndex < es[j].StateElement.LeafIndex })
+	if len(es) > 0 {
+		return es[0].Copy(), true
+	}
+	return types.SiafundElement{}, false
+}
+
+// lockedContractsTxn forms one v1 contract per timelock T whose unlock hash is that of ucLock(T) (window far beyond the horizon),
+// so that revisions authorised by time-locked unlock conditions can be probed at every height.
+func (r *runner) lockedContractsTxn(w *chain.World) (chain.Use, bool) {
+	k := r.keys
+	h := w.ChildHeight()
+	payout := types.Siacoins(10)
+	bc := w.NewBlockCtx()
+	p, ok := bc.PickSC(func(cl int) bool { return cl == chain.AddrV1 }, payout.Mul64(maxH).Add(chain.Fee))
+	if !ok {
+		return chain.Use{}, false
+	}
+	tax := chain.CurOf(chain.RefTaxV1(w.Net, h, payout))
+	t := types.Transaction{SiacoinInputs: []types.SiacoinInput{{ParentID: p.ID, UnlockConditions: k.StdUC(0)}}, MinerFees: []types.Currency{chain.Fee},
+		SiacoinOutputs: []types.SiacoinOutput{{Value: p.SiacoinOutput.Value.Sub(payout.Mul64(maxH)).Sub(chain.Fee), Address: k.Addr(chain.AddrV1)}}}
+	for T := uint64(1); T <= maxH; T++ {
+		out := []types.SiacoinOutput{{Value: payout.Sub(tax), Address: k.Addr(chain.AddrV1)}}
+		t.FileContracts = append(t.FileContracts, types.FileContract{WindowStart: maxH + 3, WindowEnd: maxH + 5, Payout: payout,
+			ValidProofOutputs: out, MissedProofOutputs: out, UnlockHash: ucLock(k, T).UnlockHash(), RevisionNumber: T})
+	}
+	w.SignV1Whole(&t)
+	return chain.Use{Name: "locked-contracts", V1: &t, SuppSC: []types.SiacoinElement{p}}, true
+}
+
 func findSC(w *chain.World, addr types.Address, nth int) (types.SiacoinElement, bool) {
 	var es []types.SiacoinElement
 	for _, e := range w.Store.SC {
@@ -236,6 +288,7 @@ func (r *runner) locks() {
 	}
 	k := r.keys
 	ts := plannedTimes(r.spec, maxH+2)
+	locked := map[uint64]types.FileContractID{} // timelock T -> v1 contract whose unlock hash is ucLock(T)
 	for h := uint64(1); h <= maxH; h++ {
 		if r.c.Expired() {
 			return
@@ -271,6 +324,35 @@ func (r *runner) locks() {
 					SiacoinOutputs: []types.SiacoinOutput{{Value: p.SiacoinOutput.Value, Address: k.Addr(chain.AddrV2)}}}
 				r.probe(w, "v2 above(h) policy (parent height)", 0, int64(T), chain.Use{Name: "above", V2: &t}, h-1 >= T)
 			}
+			// the same three lock kinds on siafund inputs
+			if p, ok := findSF(w, uc.UnlockHash()); ok {
+				if r.v1ok(h) {
+					t := types.Transaction{SiafundInputs: []types.SiafundInput{{ParentID: p.ID, UnlockConditions: uc, ClaimAddress: k.Addr(chain.AddrV1)}}, SiafundOutputs: []types.SiafundOutput{{Value: p.SiafundOutput.Value, Address: k.Addr(chain.AddrV1)}}}
+					w.SignV1Whole(&t)
+					r.probe(w, "v1 unlock-conditions timelock (siafund input)", 0, int64(T), chain.Use{Name: "uc-lock-sf", V1: &t, SuppSF: []types.SiafundElement{p}}, h >= T)
+				}
+				if r.v2ok(h) {
+					t := types.V2Transaction{SiafundInputs: []types.V2SiafundInput{{Parent: p.Copy(), ClaimAddress: k.Addr(chain.AddrV2), SatisfiedPolicy: types.SatisfiedPolicy{Policy: types.SpendPolicy{Type: types.PolicyTypeUnlockConditions(uc)}}}},
+						SiafundOutputs: []types.SiafundOutput{{Value: p.SiafundOutput.Value, Address: k.Addr(chain.AddrV2)}}}
+					t.SiafundInputs[0].SatisfiedPolicy.Signatures = []types.Signature{k.Priv[0].SignHash(w.CS.InputSigHash(t))}
+					r.probe(w, "v2 legacy unlock-conditions policy timelock on a siafund input (parent height)", 0, int64(T), chain.Use{Name: "uc-policy-lock-sf", V2: &t}, h-1 >= T)
+				}
+			}
+			if p, ok := findSF(w, types.PolicyAbove(T).Address()); ok && r.v2ok(h) {
+				t := types.V2Transaction{SiafundInputs: []types.V2SiafundInput{{Parent: p.Copy(), ClaimAddress: k.Addr(chain.AddrV2), SatisfiedPolicy: types.SatisfiedPolicy{Policy: types.PolicyAbove(T)}}},
+					SiafundOutputs: []types.SiafundOutput{{Value: p.SiafundOutput.Value, Address: k.Addr(chain.AddrV2)}}}
+				r.probe(w, "v2 above(h) policy on a siafund input (parent height)", 0, int64(T), chain.Use{Name: "above-sf", V2: &t}, h-1 >= T)
+			}
+			// v1 contract revision authorised by time-locked unlock conditions
+			if fce, ok := locked[T]; ok && r.v1ok(h) {
+				if cur, ok := w.Store.FC[fce]; ok {
+					rev := cur.FileContract
+					rev.RevisionNumber++
+					t := types.Transaction{FileContractRevisions: []types.FileContractRevision{{ParentID: fce, UnlockConditions: uc, FileContract: rev}}}
+					w.SignV1Whole(&t)
+					r.probe(w, "v1 unlock-conditions timelock (contract revision)", 1, int64(T), chain.Use{Name: "uc-lock-rev", V1: &t, SuppFC: []types.FileContractElement{cur.Copy()}}, h >= T)
+				}
+			}
 			// v1 signature timelock on a standard output
 			if r.v1ok(h) {
 				if p, ok := bc.PickSC(func(cl int) bool { return cl == chain.AddrV1 }, types.Siacoins(100)); ok {
@@ -290,6 +372,11 @@ func (r *runner) locks() {
 					t := types.V2Transaction{SiacoinInputs: []types.V2SiacoinInput{{Parent: p.Copy(), SatisfiedPolicy: types.SatisfiedPolicy{Policy: pol}}},
 						SiacoinOutputs: []types.SiacoinOutput{{Value: p.SiacoinOutput.Value, Address: k.Addr(chain.AddrV2)}}}
 					r.probe(w, "v2 after(t) policy (median of last 11 timestamps, strict)", 0, int64(d), chain.Use{Name: "after", V2: &t}, d < 0)
+				}
+				if p, ok := findSF(w, pol.Address()); ok {
+					t := types.V2Transaction{SiafundInputs: []types.V2SiafundInput{{Parent: p.Copy(), ClaimAddress: k.Addr(chain.AddrV2), SatisfiedPolicy: types.SatisfiedPolicy{Policy: pol}}},
+						SiafundOutputs: []types.SiafundOutput{{Value: p.SiafundOutput.Value, Address: k.Addr(chain.AddrV2)}}}
+					r.probe(w, "v2 after(t) policy on a siafund input (median of last 11 timestamps, strict)", 0, int64(d), chain.Use{Name: "after-sf", V2: &t}, d < 0)
 				}
 			}
 		}
@@ -312,6 +399,17 @@ func (r *runner) locks() {
 					t := bc2.V2[0]
 					r.probe(w, "v2 formation proof height >= height", 0, int64(ph), chain.Use{Name: "v2form", V2: &t}, ph >= h)
 				}
+			}
+		}
+		if h == 1 && r.v1ok(1) {
+			if u, ok := r.lockedContractsTxn(w); ok {
+				if !r.mine(w, u) {
+					return
+				}
+				for T := uint64(1); T <= maxH; T++ {
+					locked[T] = u.V1.FileContractID(int(T - 1))
+				}
+				continue
 			}
 		}
 		if !r.mine(w) {
@@ -552,7 +650,8 @@ func run(c *vf.Ctx) {
 	})
 	need := []string{"accept_at_or_after_bound", "reject_before_bound"}
 	for _, rule := range []string{"v1 transaction before v2 require height", "v2 transaction from v2 allow height", "v1 unlock-conditions timelock", "v2 legacy unlock-conditions policy timelock (parent height)",
-		"v2 above(h) policy (parent height)", "v1 signature timelock", "v2 after(t) policy (median of last 11 timestamps, strict)", "v1 formation window start >= height", "v2 formation proof height >= height",
+		"v2 above(h) policy (parent height)", "v1 signature timelock", "v1 unlock-conditions timelock (siafund input)", "v1 unlock-conditions timelock (contract revision)",
+		"v2 legacy unlock-conditions policy timelock on a siafund input (parent height)", "v2 above(h) policy on a siafund input (parent height)", "v2 after(t) policy on a siafund input (median of last 11 timestamps, strict)", "v2 after(t) policy (median of last 11 timestamps, strict)", "v1 formation window start >= height", "v2 formation proof height >= height",
 		"delayed output maturity (v1 spender)", "delayed output maturity (v2 spender)", "v1 revision not after window start", "v1 proof not before the window-start block exists",
 		"v2 revision not after proof height", "v2 proof only once the block at proof height is an ancestor", "v2 expiration only after expiration height", "v2 renewal new contract proof height >= height"} {
 		need = append(need, "rule_accept:"+rule, "rule_reject:"+rule)
